@@ -83,7 +83,7 @@ class NetSim:
     def rec_ret(self, name, api, exc="none", **kw):
         o = self.objs[name]
         e = dict(k="ret", n=name, api=api, exc=exc, proj=self.proj(self.chips[name]), t=self.s.now // 1000,
-                 addr=o.node_address, lvl=o.multicast_level)
+                 addr=o.node_address, lvl=o.multicast_level, amc=bool(o.allow_multicast))
         e.update(kw)
         self.ev.append(e)
 
